@@ -5,6 +5,11 @@ mod txm;
 mod sh;
 mod mvcc;
 mod wal;
+mod rdf;
+mod conc;
+mod txstress;
+mod conc_txm;
+mod conc_buf;
 mod val;
 
 fn main() {
@@ -19,6 +24,9 @@ fn main() {
         "sh" => sh::main(&opts),
         "mvcc" => mvcc::main(&opts),
         "wal" => wal::main(&opts),
+        "rdf" => rdf::main(&opts),
+        "conc" => conc::main(&opts),
+        "txstress" => txstress::main(&opts),
         _ => {
             eprintln!("unknown subcommand {cmd}");
             2
